@@ -337,6 +337,16 @@ class Ctx:
         mods = ["SqlfluffVerif." + f[:-5].replace("/", ".") for f in list(prop_files) + list(extra_theorem_files)]
         self.axioms = audit(mods, thms)
         self.discharged = len(thms)
+        if self.tier == "thorough" and not self.escalated:
+            # independent re-check of the compiled property modules (and everything they import) by leanchecker
+            try:
+                r = subprocess.run(["lake", "env", "leanchecker"] + mods, cwd=str(LEAN), capture_output=True, text=True, timeout=1800)
+                self.extra["leanchecker"] = {"modules": mods, "exit": r.returncode}
+                if r.returncode != 0:
+                    self.proof_broken.append({"theorem": "(leanchecker)", "file": ",".join(mods), "line": 0, "message": (r.stdout + r.stderr)[-400:]})
+                    return False
+            except Exception as e:
+                self.notes.append("leanchecker could not be run: %r" % (e,))
         return True
 
     # -- verdict -------------------------------------------------------------
